@@ -178,7 +178,8 @@ impl FsCommand {
     }
 
     fn check_can_rename(source: &Path, target: &Path) -> io::Result<()> {
-        if target.to_path_buf().exists() {
+        // `exists()` follows symbolic links and reports false for a dangling one
+        if target.to_path_buf().symlink_metadata().is_ok() {
             return Err(io::Error::new(
                 ErrorKind::AlreadyExists,
                 format!(
